@@ -9,7 +9,10 @@ CASE_T = "bool * bool * list wop"
 
 
 class Walker:
-    def __init__(self, prune, use_cache):
+    def __init__(self, prune, use_cache, root_via_from=False):
+        # root_via_from: descents "from the root" are made as traverse_from(trie.root_node, prefix) instead of traverse(prefix)
+        # (both are ways a walker reaches a prefix from the root; the model's step is the same)
+        self.root_via_from = root_via_from
         from trie import HexaryTrie
         from trie.fog import HexaryTrieFog, TrieFrontierCache
         self.backing = C.FailingDict()
@@ -47,7 +50,9 @@ class Walker:
                     cached = None
             partial = False
             try:
-                if cached is None:
+                if cached is None and self.root_via_from:
+                    node = self.trie.traverse_from(self.trie.root_node, prefix)
+                elif cached is None:
                     node = self.trie.traverse(prefix)
                 else:
                     node = self.trie.traverse_from(cached[0], cached[1])
